@@ -51,8 +51,10 @@ FIELD_ITEMS = [("Host", "HTTP_HOST"), ("Content-Type", "CONTENT_TYPE"), ("X-A", 
                ("Script-Name", "HTTP_SCRIPT_NAME"), ("Content_Type", None),
                # a forwarder header (the bench's peer 127.0.0.1 is in the default forwarded_allow_ips): it is let through
                # under its underscore name; that says nothing about any other underscore name in the same request
-               ("PATH_INFO", "HTTP_PATH_INFO")]
-VALUE_KINDS = [b"/app", b"v1", b"caf\xe9", b"  padded \t", b"", b"a,b", b"v2", b"\x0bvt\x0c", b"\xa0nb\x85", b"\x1fus\x1c"]
+               ("PATH_INFO", "HTTP_PATH_INFO"),
+               # handled specially by the server (interim response): it is a request field like the others for the application
+               ("Expect", "HTTP_EXPECT")]
+VALUE_KINDS = [b"100-continue", b"/app", b"v1", b"caf\xe9", b"  padded \t", b"", b"a,b", b"v2", b"\x0bvt\x0c", b"\xa0nb\x85", b"\x1fus\x1c"]
 
 
 def field_lists(maxn):
